@@ -87,15 +87,22 @@ def _pyset(dev, name, value, via_setter):
         raise KeyError(name)
 
 
-def run_impl(cfg, counter, ops):
+def run_impl(cfg, counter, ops, responder=None, resolved=None):
     """cfg: list of (name, token); ops: list of ('op', name, [[frames],...]) or ('set', name, token).
-    Returns (status, failed_op, state, sent) with sent = list of (class name, frame bytes)."""
+    An op whose reply script is None is answered by `responder(frame) -> [frames]`; the replies
+    actually given are recorded in `resolved` (a list receiving the ops with scripts filled in).
+    Returns (status, failed_op, state, sent, dev) with sent = list of frame bytes."""
     sent = []
     script = []
+    current = {"replies": None}
 
     async def fake_send(self, command):
         data = command.tobytes()
         sent.append(data)
+        if current["replies"] is not None:
+            r = list(responder(data))
+            current["replies"].append(r)
+            return r
         return list(script.pop(0)) if script else []
 
     orig = Device._send_command
@@ -111,8 +118,18 @@ def run_impl(cfg, counter, ops):
             try:
                 if op[0] == "set":
                     _pyset(dev, op[1], op[2], True)
+                    if resolved is not None:
+                        resolved.append(op)
                 else:
-                    script[:] = [list(r) for r in op[2]]
+                    if op[2] is None:
+                        current["replies"] = []
+                        if resolved is not None:
+                            resolved.append(("op", op[1], current["replies"]))
+                    else:
+                        current["replies"] = None
+                        script[:] = [list(r) for r in op[2]]
+                        if resolved is not None:
+                            resolved.append(op)
                     asyncio.run(getattr(dev, OPS[op[1]])())
             except Exception as e:  # noqa
                 status, failed = "err:py:" + type(e).__name__, i
@@ -163,9 +180,13 @@ def canon_cmd_frame(frame):
     return (head, body.hex())
 
 
-def compare(ctx, stream, cfg, counter, ops):
+def compare(ctx, stream, cfg, counter, ops, responder=None):
     """run both sides; returns impl result tuple. records disagreements."""
-    st, failed, state, sent, dev = run_impl(cfg, counter, ops)
+    resolved = []
+    st, failed, state, sent, dev = run_impl(cfg, counter, ops, responder=responder, resolved=resolved)
+    if responder is not None:
+        # ops the implementation never reached keep an empty script
+        ops = resolved + [o if o[0] == "set" or o[2] is not None else ("op", o[1], []) for o in ops[len(resolved):]]
     line = line_for(cfg, counter, ops)
     if ctx.driver:
         mst, mfailed, mstate, msent = parse_model(ctx.driver.ask(line))
